@@ -144,6 +144,8 @@ func cmdCheck(args []string) {
 			switch {
 			case q.Result.Status == "disagree":
 				faults = append(faults, q.Name+": solvers disagree: "+q.Result.Output)
+			case q.Result.Status == "error":
+				faults = append(faults, q.Name+": every solver rejected the query: "+firstLine(q.Result.Output))
 			case q.Expect == "notunsat":
 				if q.Result.Status == "unsat" {
 					faults = append(faults, q.Name+": assumptions are contradictory (vacuous proof)")
@@ -256,6 +258,13 @@ func cmdCheck(args []string) {
 	if violations > 0 {
 		os.Exit(1)
 	}
+}
+
+func firstLine(s string) string {
+	if i := strings.Index(s, "\n"); i >= 0 {
+		return s[:i]
+	}
+	return s
 }
 
 func clauseOf(q *Query) string {
